@@ -633,17 +633,24 @@ class ProvRDFSerializer(Serializer):
                 pred_new = pred
                 if pred in predicate_mapper:
                     pred_new = predicate_mapper[pred]
-                if ids[id] == PROV_COMMUNICATION and "activity" in str(pred_new):
+
+                def is_prov(name):
+                    # exactly the PROV property (as a URI, or already mapped to
+                    # the attribute's qualified name), not any predicate whose
+                    # URI merely contains the word
+                    return str(pred_new) in (PROV[name].uri, "prov:" + name)
+
+                if ids[id] == PROV_COMMUNICATION and is_prov("activity"):
                     pred_new = PROV_ATTR_INFORMANT
-                if ids[id] == PROV_DELEGATION and "agent" in str(pred_new):
+                if ids[id] == PROV_DELEGATION and is_prov("agent"):
                     pred_new = PROV_ATTR_RESPONSIBLE
-                if ids[id] in [PROV_END, PROV_START] and "entity" in str(pred_new):
+                if ids[id] in [PROV_END, PROV_START] and is_prov("entity"):
                     pred_new = PROV_ATTR_TRIGGER
-                if ids[id] in [PROV_END] and "activity" in str(pred_new):
+                if ids[id] in [PROV_END] and is_prov("activity"):
                     pred_new = PROV_ATTR_ENDER
-                if ids[id] in [PROV_START] and "activity" in str(pred_new):
+                if ids[id] in [PROV_START] and is_prov("activity"):
                     pred_new = PROV_ATTR_STARTER
-                if ids[id] == PROV_DERIVATION and "entity" in str(pred_new):
+                if ids[id] == PROV_DERIVATION and is_prov("entity"):
                     pred_new = PROV_ATTR_USED_ENTITY
                 if str(pred_new) in [val.uri for val in formal_attributes[id]]:
                     qname_key = self.valid_identifier(pred_new)
@@ -652,13 +659,13 @@ class ProvRDFSerializer(Serializer):
                     if len(unique_sets[id][qname_key]) > 1:
                         formal_attributes[id][qname_key] = None
                 else:
-                    if "qualified" not in str(pred_new) and "asInBundle" not in str(
-                        pred_new
-                    ):
+                    if not str(pred_new).startswith(
+                        PROV.uri + "qualified"
+                    ) and str(pred_new) != PROV["asInBundle"].uri:
                         other_attributes[id].append((str(pred_new), obj1))
             local_key = str(obj)
             if local_key in ids:
-                if "qualified" in pred:
+                if pred.startswith(PROV.uri + "qualified"):
                     formal_attributes[local_key][
                         list(formal_attributes[local_key].keys())[0]
                     ] = id
